@@ -162,6 +162,7 @@ use vstd::utf8::*;
 use std::convert::{TryFrom, TryInto};
 verus! {
 global size_of usize == 8;
+//@ include units/common/float.inc.rs
 //@ include units/gds_codec/spec.inc.rs
 //@ include units/gds_codec/points.inc.rs
 //@ include units/gds_codec/reader.inc.rs
